@@ -689,7 +689,7 @@ def value_leaves(body, e, depth=0, seen=None):
 
 
 # ---------------------------------------------------------------------------- FSM extraction (K8)
-def fsm_extract(body, state_adt_pat, dispatch_pat=r"^discr\(std::mem::replace\("):
+def fsm_extract(body, state_adt_pat, dispatch_pat=r"^discr\(std::mem::replace\(", classify=None):
     """Extract the transition relation of a `match mem::replace(state, Poison)` dispatch loop.
     Returns dict arm -> {'pending': [(variant, fields, site)] stores that are the last store before a Poll::Pending result,
                         'next': [(variant, fields, site)] last stores before looping back,
@@ -730,7 +730,9 @@ def fsm_extract(body, state_adt_pat, dispatch_pat=r"^discr\(std::mem::replace\("
         if d[0] == "stmt":
             e = body.rvalue_expr(d[3])
             r = render(e)
-            if r.startswith("std::task::Poll::Pending"):
+            if classify is not None:
+                k = classify(r)
+            elif r.startswith("std::task::Poll::Pending"):
                 k = "Pending"
             elif r.startswith("std::task::Poll::Ready{0: std::result::Result::Ok") or r.startswith("std::task::Poll::Ready{0: std::option::Option::Some{0: std::result::Result::Ok"):
                 k = "Ready(Ok)"
